@@ -8,7 +8,8 @@ Definition fops : sops float := {|
   s0 := 0%float; s1 := 1%float;
   sadd := PrimFloat.add; smul := PrimFloat.mul; ssub := PrimFloat.sub; sopp := PrimFloat.opp;
   sdiv := PrimFloat.div; ssqrt := PrimFloat.sqrt;
-  sltb := PrimFloat.ltb; sleb := PrimFloat.leb; seqb := PrimFloat.eqb; sabs := PrimFloat.abs |}.
+  sltb := PrimFloat.ltb; sleb := PrimFloat.leb; seqb := PrimFloat.eqb; sabs := PrimFloat.abs;
+  snormal := fun x => match PrimFloat.classify x with FloatClass.PNormal | FloatClass.NNormal => true | _ => false end |}.
 
 Definition cf := (float * float)%type.
 
